@@ -425,7 +425,10 @@ func ruleR12e(h *H) {
 }
 
 func ruleR12f(h *H) {
-	const rule = "R12f"
+	ruleR12fInto(h, "R12f")
+}
+
+func ruleR12fInto(h *H, rule string) {
 	h.Rule(rule, "K1/K6", "delete-range: scan bounds == tombstone bounds (the request's fields); the per-key callback runs for every key the scan yields (the loop is only left when the scan ends or on error); key collection and range tombstone are chosen by complementary comparisons of one counter with one threshold", 4)
 	fn, call := applyCallFor(h, "DeleteRanges")
 	if call == nil {
